@@ -10,7 +10,10 @@ F_Q = 'atsim/potentials/tools/potable/_query_actions.py'
 import contracts.overrides as OVc
 import contracts.rawparser as RPc
 import contracts.potable_cli as CLIc
-FUNCTIONS = [(F_CP, 'ConfigParser._init_config_parser'), (F_CP, '_RawConfigParser.has_option'), (F_POT, '_create_override_tuple'), (F_POT, '_make_config_parser'), (F_CP, 'ConfigParser.__init__')]
+import contracts.query_actions as QAc
+FUNCTIONS = [(F_CP, 'ConfigParser._init_config_parser'), (F_CP, '_RawConfigParser.has_option'), (F_POT, '_create_override_tuple'), (F_POT, '_make_config_parser'), (F_CP, 'ConfigParser.__init__'),
+             (F_Q, '_list_section'), (F_Q, '_parse_raw'), (F_Q, '_list_items'), (F_Q, '_item_value'), (F_CP, 'ConfigParser.parsed_sections'), (F_CP, 'ConfigParser.raw_config_parser')]
+SPECSEQS = [QAc.other_sections, QAc.section_items, QAc.var_items]
 
 def lemmas():
     out = []
@@ -47,11 +50,13 @@ def lemmas():
     out.append(S('C14', F_CP, '_RawConfigParser.options', 'length-of-a-section-counts-own-keys-only', ['return list(self._sections[section].keys())\n except KeyError:']))
     # CLI: _create_override_tuple and _make_config_parser are under Engine A contracts (contracts/potable_cli.py): each edit handed to ConfigParser is the last
     # one the command line gives for its item (a removal wins over an override), no edited item is lost, additions are kept in command line order
-    # --list-items: parsed sections, orphan sections and [Variables], each once
-    out.append(S('C14', F_Q, '_list_items', 'every-section-once',
-                 ["if 'pair' in parsed_sections:", "if 'potential_form' in parsed_sections:", "if 'tabulation' in parsed_sections:", "if 'eam_embed' in parsed_sections:",
-                  "if 'eam_density' in parsed_sections or 'eam_density_fs' in parsed_sections:", 'raw_items = _parse_raw(cp, orphan_sections)', 'for k, v in raw_cp.defaults().items():']))
-    out.append(S('C14', F_Q, '_list_section', 'every-key-of-the-section-with-its-value', ['for k in raw_cp[section]:', 'v = raw_cp[section][k]', 'outlist.append(ov)']))
+    # --list-items: _list_section, _parse_raw, _list_items, _item_value and ConfigParser.parsed_sections are under Engine A contracts (contracts/query_actions.py):
+    # the listing is the five sections with fixed names (those present), then every other section in file order, then [Variables].  That this lists every
+    # section of the file exactly once: a section is listed with the fixed names iff its name is one of them, and among the others iff it is not
+    # (filter lemmas of other_sections, proved by induction in this run)
+    nm = z3.String('sk_name')
+    fixed = z3.Or(*[nm == z3.StringVal(x) for x in QAc.LISTED])
+    out.append(Obligation('C14/lemma/list-items/a-section-is-in-exactly-one-group', [], fixed != QAc.is_other(nm), kind='lemma', function='props/C14.py', carries_property=True))
     from pyvc.exceptions import bases_of
     for cls in ('ConfigOverrideException', 'ConfigOverrideDuplicateException'):
         out.append(B.static_obligation('C14/_config_parser.py::%s/is-a-ConfigurationException' % cls, 'ConfigurationException' in bases_of(cls), cls, F_CP, str(bases_of(cls))))
@@ -76,12 +81,18 @@ MUTANTS = [
     (F_POT, '_make_config_parser', "if not remove is None:", "if remove is None:", 'post'),
     (F_CP, 'ConfigParser.__init__', "self._init_config_parser(fp, overrides, additional)", "self._init_config_parser(fp, additional, overrides)", 'post'),
     (F_CP, 'ConfigParser.__init__', "self._init_config_parser(fp, overrides, additional)", "self._init_config_parser(fp, overrides, [])", 'post'),
+    (F_Q, '_list_section', "v = raw_cp[section][k]", "v = k", 'preserve/0'),
+    (F_Q, '_list_items', "listed_sections = ['Pair', 'Potential-Form', 'Tabulation', 'EAM-Embed', 'EAM-Density']", "listed_sections = ['Pair', 'Potential-Form', 'Tabulation', 'EAM-Embed', 'EAM-Density', 'Table-Form']", 'comprehension'),
+    (F_Q, '_list_items', "if 'tabulation' in parsed_sections:", "if 'table_form' in parsed_sections:", 'post'),
+    (F_Q, '_list_items', "items.extend(raw_items)", "pass", 'post'),
+    (F_Q, '_item_value', "key.rsplit(':', 1)", "key.split(':', 1)", 'post'),
+    (F_CP, 'ConfigParser.parsed_sections', "if output_key and self._config_parser.has_section(section_key):", "if output_key:", 'post'),
 ]
 MODULE_MUTANTS = [
     (F_CP, "    option = option.strip().replace(' ', '').replace('\\t', '')\n", "    option = option.strip()\n", 'one-normal-form'),
     (F_CP, "    for override in additional:\n      if cp.has_option(override.section, override.key):\n        raise ConfigOverrideDuplicateException(", "    for override in additional:\n      if False:\n        raise ConfigOverrideDuplicateException(", '_init_config_parser/preserve/1'),
     (F_CP, "        if len(cp[override.section]) == 0:\n          cp.remove_section(override.section)\n", "", '_init_config_parser/preserve/0'),
-    (F_Q, "  for k,v in raw_cp.defaults().items():\n    items.append((\"{section}:{key}\".format(section = raw_cp.default_section, key = k), v))\n", "", 'every-section-once'),
+    (F_Q, "  for k,v in raw_cp.defaults().items():\n    items.append((\"{section}:{key}\".format(section = raw_cp.default_section, key = k), v))\n", "", '_list_items'),
 ]
 ENGINE_B_FUNCTIONS = [(F_CP, 'ConfigParser._init_config_parser'), (F_CP, '_RawConfigParser.optionxform'), (F_CP, '_RawConfigParser.has_option'), (F_CP, '_ConfigParserDict._key_transform'),
                       (F_POT, '_make_config_parser'), (F_POT, '_create_override_tuple'), (F_Q, '_list_items'), (F_Q, '_list_section')]
